@@ -113,15 +113,15 @@ def generate():
     from harness.extract_tables import lstr, llist, lbool
     from http.cookies import Morsel
     from ombott.response import http_date
-    rows = llist('(%s, %s, %s, %s, %s, %s, %s)' % (lstr(o), lstr(a), lstr(n), lstr(r), lstr(w), lbool(i), lstr(d))
+    rows = llist('(%s, %s, %s, %s, %s, %s, %s, %s)' % (lstr(o), lstr(a), lstr(n), lstr(r), lstr(w), lbool(i), lstr(d), '(%d : Int)' % (int(d) if i else 0))
                  for o, a, n, r, w, i, d in props())
     new = llist('(%s, %s, %s)' % (lstr(c), lbool(h), lstr(e)) for c, h, e in new_outcomes())
     sl = llist('(%d, %s)' % (c, lstr(l)) for c, l in status_lines())
     res = llist('(%s, %s)' % (lstr(k), lstr(v)) for k, v in sorted(Morsel._reserved.items()))
     return (
         '/-- every `HeaderProperty` attribute of the package: owner class, attribute, header name, reader kind\n'
-        '("" none, "int", "other"), writer kind ("" none, "http_date", "other"), default is an int?, `str(default)` -/\n'
-        f'def rhProps : List (String × String × String × String × String × Bool × String) := {rows}\n\n'
+        '("" none, "int", "other"), writer kind ("" none, "http_date", "other"), default is an int?, `str(default)`, the default as an integer (0 for a text default) -/\n'
+        f'def rhProps : List (String × String × String × String × String × Bool × String × Int) := {rows}\n\n'
         '/-- the attribute names `WSGIFileWrapper.__init__` copies from `fp`, in the order it asks for them -/\n'
         f'def rhFwAttrs : List String := {llist(lstr(a) for a in fw_attrs())}\n\n'
         '/-- `cls.__new__(cls)` / `cls.__new__(cls, status=200)` per response class: the exception class, "" = an object -/\n'
